@@ -448,6 +448,10 @@ def rule_inverse_perms(mod, rep):
         rep.scope([f.name])
         for nm, fld, src in (("inv_perm_c", "inv_perm_c", "perm_c"), ("inv_perm_r", "inv_perm_r", "perm_r")):
             sts = []
+            tgt_all = set()
+            for x in f.insts():
+                if x.op == "store" and addr_is_field_cell(f, x, fld, "pxgstrf_shared_t"):
+                    tgt_all |= set(f.paths(x.ops[0]))
             for s in f.insts():
                 if s.op != "store":
                     continue
@@ -470,6 +474,28 @@ def rule_inverse_perms(mod, rep):
                 from_src = any(p[-1] == ("i",) and ((len(p) >= 3 and p[-3][0] == "f" and p[-3][2] == src) or (len(p) == 2 and p[0][0] == "A" and f.pname(p[0][1]) == src)) for p in f.addr_paths(L))
                 if from_src and same_val(strip_casts(f, s.ops[0]), gep_index(f, L.ops[0])):
                     ok = True
+            if not ok and tgt_all:
+                # the loop may live in a static helper: invert(n, perm, inv) called with the two arrays
+                for c in f.calls():
+                    h = mod.funcs.get(c.callee or "")
+                    if h is None or not h.internal or not h.blocks:
+                        continue
+                    for s2 in h.insts():
+                        if s2.op != "store":
+                            continue
+                        for p2 in h.addr_paths(s2):
+                            if len(p2) == 2 and p2[0][0] == "A" and p2[1] == ("i",) and p2[0][1] < len(c.ops) and (f.paths(c.ops[p2[0][1]]) & tgt_all):
+                                idx2 = gep_index(h, s2.ops[1])
+                                if idx2 is None or idx2[0] != "v" or h.inst[idx2[1]].op != "load":
+                                    continue
+                                L2 = h.inst[idx2[1]]
+                                for q in h.addr_paths(L2):
+                                    if len(q) == 2 and q[0][0] == "A" and q[1] == ("i",) and q[0][1] < len(c.ops):
+                                        srcp = f.paths(c.ops[q[0][1]])
+                                        from_src2 = any((len(pp) >= 2 and pp[-2][0] == "f" and pp[-2][2] == src) or (len(pp) == 1 and pp[0][0] == "A" and f.pname(pp[0][1]) == src) or
+                                                        (len(pp) >= 1 and pp[-1] == ("*",) and len(pp) >= 2 and pp[-2][0] == "f" and pp[-2][2] == src) for pp in srcp)
+                                        if from_src2 and same_val(strip_casts(h, s2.ops[0]), gep_index(h, L2.ops[0])):
+                                            ok = True; sts = sts or [c]
             rep.check(ok, "P-INV", "%s#%s" % (f.name, nm), "%s[%s[i]] = i" % (nm, src), "%s is not built as the inverse of %s (pivotL would look for the diagonal / recorded row in the wrong place)" % (nm, src),
                       sts[0].loc if sts else f.file, f.name)
 
